@@ -345,7 +345,7 @@ Theorem forwarding : forall R (sh : shape) (args : list aval) (resp : responder 
 Proof.
   intros R sh args resp st HL HW. unfold gen_body, forward_spec.
   destruct (sh_recv sh); cbn [receiver_of self_reference received_self].
-  1,3,4,5,6: (rewrite (direct_ok R (sh_params sh) args resp st HL HW) by (auto); unfold spec_with; destruct resp; reflexivity).
+  1,3,4,5,6,8,9: (rewrite (direct_ok R (sh_params sh) args resp st HL HW) by (auto); unfold spec_with; destruct resp; reflexivity).
   all: rewrite (polonius_ok R (sh_params sh) args resp st HL HW); unfold spec_with; destruct resp; reflexivity.
 Qed.
 
